@@ -109,6 +109,49 @@ pub fn seq_case_k(max_len: usize, sub: bool, modes: u8, with_deadline: bool) -> 
         .boxed()
 }
 
+/// big sequence families for the capture pipeline: thousands of raw ops; edits (also blocks of
+/// more than 1000 identical items) next to periodic runs of thousands of items
+pub fn big_seq_case(tier: crate::core::Tier) -> BoxedStrategy<SeqCase> {
+    use proptest::collection::vec;
+    let big = tier.pick(2500usize, 5000);
+    prop_oneof![
+        (2u32..5, vec(0u32..64, 1200..=big), vec((0u8..3, any::<u16>(), 0u32..64), 300..=900), 0u8..2).prop_map(|(k, a, es, alg)| {
+            let a: Vec<u32> = a.into_iter().map(|x| x % k).collect();
+            let mut b = a.clone();
+            for (kind, at, val) in es {
+                let n = b.len();
+                if n == 0 {
+                    break;
+                }
+                let p = pos(at, n - 1);
+                match kind {
+                    0 => {
+                        b.remove(p);
+                    }
+                    1 => b.insert(p, val % k),
+                    _ => b[p] = val % k,
+                }
+            }
+            SeqCase::full(alg, a, b)
+        }),
+        (1usize..4, 2200..=tier.pick(5200usize, 9000), prop_oneof![3 => 0usize..3, 1 => 1000usize..1600], any::<u16>(), 0u8..3, any::<bool>()).prop_map(|(p, n, extra, at, alg, del)| {
+            let a: Vec<u32> = (0..n).map(|i| (i % p) as u32).collect();
+            let mut b = a.clone();
+            let q = pos(at, b.len());
+            if del {
+                let k = (extra + 1).min(b.len() - q);
+                b.drain(q..q + k);
+            } else {
+                let block: Vec<u32> = (0..=extra).map(|t| ((q + t) % p) as u32).collect();
+                b.splice(q..q, block);
+            }
+            let alg = if alg == 2 { 0 } else { alg }; // LCS tables of this size are too large
+            SeqCase::full(alg, a, b)
+        }),
+    ]
+    .boxed()
+}
+
 // ------------------------------------------------------------------------------------------
 // text cases
 
@@ -242,7 +285,8 @@ pub fn distinct_line_case(max_lines: usize) -> BoxedStrategy<TextCase> {
         .boxed()
 }
 
-/// fixed huge line texts: more than 65 536 distinct lines (ids beyond 16 bits)
+/// fixed huge line texts: more than 65 536 distinct lines (ids beyond 16 bits), once with 70 000
+/// lines per side and once with both sides below 65 536 lines
 pub fn huge_line_cases() -> Vec<TextCase> {
     let mut out = vec![];
     let line = |i: usize| format!("record {:07}\n", i);
@@ -252,9 +296,10 @@ pub fn huge_line_cases() -> Vec<TextCase> {
     new_lines.remove(30_000);
     new_lines.insert(12, "inserted\n".to_string());
     out.push(TextCase { old: BStr(old.clone().into_bytes()), new: BStr(new_lines.concat().into_bytes()), tok: 0, alg: 0, bytes: false, opt: 3 });
-    // 40 000 lines, then the same 40 000 followed by 30 000 new distinct ones (70 000 ids)
-    let a: String = (0..40_000).map(line).collect();
-    let b: String = (0..40_000).map(line).chain((0..30_000).map(|i| format!("other {:07}\n", i))).collect();
+    // both sides below 65 536 tokens but 66 000 distinct lines in total: 60 000 lines, a block of
+    // 6 000 of them replaced by new distinct lines
+    let a: String = (0..60_000).map(line).collect();
+    let b: String = (0..27_000).map(line).chain((0..6_000).map(|i| format!("other {:07}\n", i))).chain((33_000..60_000).map(line)).collect();
     out.push(TextCase { old: BStr(a.into_bytes()), new: BStr(b.into_bytes()), tok: 0, alg: 1, bytes: true, opt: 0 });
     out
 }
